@@ -103,6 +103,9 @@ class PendingComp(PendingExprGeneric[_CompNode]):
         self.target_names = set()
 
         for comp in self.node.generators:
+            if comp.is_async:
+                # asynchronous forms can not be converted (see "Limitations")
+                raise RuntimeError("Unable to convert an asynchronous comprehension")
             self.get_comp_target_names(comp.target)
 
         self.nsp.comp_stack.append(self)
